@@ -36,9 +36,9 @@ CLAIMS = {
          "The random source is an explicit stream; that crypto/rand.Reader's default is the operating system's CSPRNG is the Go runtime's and is not modelled (partial there). The harness substitutes rand.Reader by a recording stream and compares sequential histories with the model, interleaved ones by multiset of recorded reads.", "6 C08"),
  'C09': ("Certificate theorem + finite facts: over the SSA form of the code regenerated on every run (native: library + REST; js/wasm: library + binding) the analysis of Model/Flow.v finds no comparison (and no call leaving the analysed packages, other than listed output functions) whose operands carry both HMAC-derived and caller-derived data, and no branch on an HMAC-derived condition (explicit flows plus control dependence) that controls a comparison of caller-derived data; "
          "the tainted sets are checked to be closed supersets of the sources and closed_sound / no_leak_sound prove that such a certificate covers every flow path of the fact base (vm_compute on the regenerated facts, unbounded induction over paths).",
-         "Partial by nature: time itself is not modelled, only the data-flow statement the property reduces it to; micro-architectural timing and the constant-timeness of crypto/subtle.ConstantTimeCompare are Go's. The edge rules, control dependence and source/barrier classification live in tools/gen_ssa and are trusted to over-approximate explicit data flow (field/index/context-insensitive; table look-ups keyed by data are not tracked). A leak site is reported with the instruction (file:line) as replay and no-failing-input-found, since a timing difference has no single failing input.", "6 C09"),
+         "Partial by nature: time itself is not modelled, only the data-flow statement the property reduces it to; micro-architectural timing and the constant-timeness of crypto/subtle.ConstantTimeCompare are Go's. The edge rules, control dependence and source/barrier classification live in tools/gen_ssa and are trusted to over-approximate explicit data flow (field/index/context-insensitive; table look-ups keyed by data are not tracked). A leak site is reported with the instruction (file:line) as replay and no-failing-input-found, since a timing difference has no single failing input. A second, dynamic engine (a search, not a proof) compares block execution counts of the library, built with go build -cover, across wrong codes that agree with the expected code in their first k characters; a difference is reported with the pair of inputs.", "6 C09"),
  'C10': ("Unbounded theorems: in the model every Go operation that can panic (index, slice bound, division, negative make) has the explicit outcome Panic, and no exported operation has that outcome for any argument value: DecodeSecret, Generate/Validate HOTP/TOTP (all digits/hash/period/skew/counter/instant values, absent parameters), Generate/Validate OCRA and the derivation (all configurations and inputs), RandomSecret, the input helpers, NewRawSuite / the parser / NewSuite (all strings), the URL builders and ParseOTPAuthURL (all URLs and nil).",
-         "Hangs are excluded by totality of the model plus the derivation bound of C04; the harness runs a hostile stream (every uint8 enum value, boundary integers, invalid UTF-8, 64 KiB strings, nil/empty/oversized byte fields, arbitrary suite configurations and URLs) under recover() and a per-case watchdog and compares outcome and value with the model. Stack or heap exhaustion is the Go runtime's and is not modelled. The inventory of potentially panicking SSA instructions planned in DESIGN.md is not built.", "6 C10"),
+         "Hangs are excluded by totality of the model plus the derivation bound of C04; the harness runs a hostile stream (every uint8 enum value, boundary integers, invalid UTF-8, 64 KiB strings, nil/empty/oversized byte fields, arbitrary suite configurations and URLs) under recover() and a per-case watchdog and compares outcome and value with the model. Stack or heap exhaustion is the Go runtime's and is not modelled. For the translated functions the translator puts a panic outcome at every index, slice, division and dereference of the Go text (C10src theorems); for the rest of the library the guards are the modeller's.", "6 C10"),
  'C11': ("Unbounded theorems over a small-step model of the pooled-buffer discipline (any number of library threads, adversary threads that take/overwrite/return pooled buffers, a collector emptying the pool, thread creation at any time): in every reachable state — every interleaving — a buffer is held by at most one thread and is not pooled while held, and the bytes a call reads back into its HMAC are its own arguments; "
          "finite facts with a certificate theorem on the SSA form regenerated on every run (native and js/wasm): no pooled buffer or view of it (unsafe string conversions included) is among the results of the function that took it, every Put is deferred, nothing outside package initialisation writes memory reachable from a package-level variable.",
          "Partial: the Go memory model and sync.Pool's happens-before edges are assumed, the real scheduler is not modelled; the step granularity (one byte store / load per step) is the model's. Behavioural tie: concurrent histories of all operation kinds on 1..64 goroutines and 1..16 processors with forced collections and a pool adversary (hook VerifPools), every answer compared with the model's pure function and retained result strings re-read at the end; the race detector runs in the thorough tier and is evidence, not proof. Sequential histories are every other stream (one process, one P).", "6 C11"),
@@ -69,6 +69,13 @@ CLAIMS = {
          "JavaScript values are modelled by type and, for numbers, by what syscall/js Value.Int() returns under Node (truncation; NaN/infinities/out-of-range give MinInt64 — observed, not derived); the freshly built module is run under Node through globalThis and through a copy of the package's own index.js and compared with the model and with the native model on every run. Strings cross the boundary as UTF-8; only valid UTF-8 is exercised. 'leaves the module usable' is checked by the harness (one module instance answers the whole stream).", "6 C20"),
 }
 
+SRC_TIE = {'C01', 'C02', 'C03', 'C04', 'C05', 'C06', 'C07', 'C10', 'C13', 'C14'}
+SRC_NOTE = (" Second tie (DESIGN.md 4.3): tools/gen_model translates the Go text of the functions this property is anchored in into Gallina on every run "
+            "(Generated/Src.v); Proofs/SrcEq*.v prove the translation equal to the hand-written model for all inputs and Properties/%ssrc*.v restate the theorems "
+            "over the translated source (all closed under the global context). Trusted there: the translation rules, Base/GoSem.v, the transcribed library functions. "
+            "When a rewrite breaks that tie the evidence says so, the correspondence runs at 8 times its size, and only a concrete disagreement is reported.")
+
+
 def main():
     props = [json.loads(l) for l in open(os.path.join(ROOT, 'properties.jsonl'))]
     checks, na = [], []
@@ -84,8 +91,8 @@ def main():
                 'replay_cmd_template': 'bin/check %s --replay {path}' % pid,
                 'engine': 'rocq-model',
                 'level_claimed': {'category': 'proof', 'text': text, 'design_ref': 'DESIGN.md section ' + ref},
-                'level_note': COMMON_NOTE + extra,
-                'technique': 'machine-checked proof in Rocq/Coq 8.16 over a Gallina model of the Go code, tied to /repo by differential correspondence (Go harness vs extracted model + vm_compute slice) and regenerated tables',
+                'level_note': COMMON_NOTE + extra + (SRC_NOTE % pid if pid in SRC_TIE else ''),
+                'technique': 'machine-checked proof in Rocq/Coq 8.16 over a Gallina model of the Go code, tied to /repo by differential correspondence (Go harness vs extracted model + vm_compute slice) and regenerated tables' + (', and by translation of the Go source into Gallina on every run with machine-checked equivalence to the model' if pid in SRC_TIE else ''),
             })
         else:
             na.append({'property_id': pid, 'reason': 'not claimed yet: model/proof for this property is still being built (see DESIGN.md section 9, order of work)'})
@@ -96,7 +103,7 @@ def main():
                   'baseline_off_cmd': 'cd /repo && go test -vet=off -count=1 ./...',
                   'source_commits': ['0487d02'], 'add_only': True},
         'engines': [{'name': 'rocq-model', 'path': '/verif/coq', 'serves_properties': sorted(CLAIMS),
-                     'kind_free_text': 'Coq 8.16.1 development: Spec (RFC-level) <- refinement theorems <- Model (Gallina mirror of the Go code) ; bin/check drives translator, build, correspondence'}],
+                     'kind_free_text': 'Coq 8.16.1 development: Spec (RFC-level) <- refinement theorems <- Model (Gallina mirror of the Go code) ; bin/check drives translators (gen_tables, gen_ssa, gen_model), build, correspondence'}],
         'checks': checks,
         'notes': 'See DESIGN.md. Findings repaired by fix: commits are listed in known_findings.txt; their witnesses are the regression corpus under corpus/.',
         'not_applicable': na,
